@@ -60,7 +60,7 @@ CLAIMS.update({
         technique="Verus requires/ensures/invariant/decreases on the FEA lexer extracted mechanically from the real source each run (unbounded input length), plus a bounded Kani companion on the unextracted lexer for concrete counterexamples",
         text=("The lexer half of the statement is proved for every input length: each of the 18 lexer functions is total (all index/arithmetic obligations), every loop decreases |input|-pos (no hang), and next_token satisfies "
               "T1 lexemes tile the input (lossless), T2 progress, T3 Eof exactly at end of input, T4 lexemes end on character boundaries; a verified driver theorem lifts them to 'lexeme lengths sum to |input|'. "
-              "Three no-panic kernels of the parser's plumbing are proved completely with Kani: TokenSet (the recovery sets) is a correct bit set for all 125 lexer kinds and all u128 sets, and Kind::to_token_kind is total for every kind the parser can forward. "
+              "No-panic / no-byte-lost kernels of the parser's plumbing are under contract with Kani: TokenSet (the recovery sets) is a correct bit set for all 125 lexer kinds and all u128 sets and Kind::to_token_kind is total for every kind the parser can forward (complete); the ${...} identifier splitter tiles its token exactly, validate_glyph_name reports positions inside the name, SourceMap::resolve_range stays inside its chunk (bounded). "
               "The parser, tree sink, rewrite step, validation and include resolution are NOT under contract (Arc/SmolStr/trait-object code): that every lexeme is forwarded exactly once to the tree is an assumption."),
         note="Trusted: Verus + bundled Z3; five assume_specification lines for std functions; usize = 64 bit; |input| <= 2^63-16; the str -> [u8] rewrite (UTF-8 validity becomes an explicit hypothesis where needed); "
              "Kind::from_keyword is external_body with the assumed contract 'never Eof', itself checked by a bounded Kani harness; the extraction's logged rewrites (diff shipped vs verified is written on every run). " + _KANI_NOTE,
@@ -70,7 +70,7 @@ CLAIMS.update({
         technique="Kani pre/post contract harnesses on MetricsBuilder::{update,build}, GlyphLimits::max and the UNICODE_RANGES table invariant, discharged by CBMC",
         text=("Partial - the hhea/hmtx summary kernel: MetricsBuilder::update is proved over an arbitrary prior state and all inputs (running max advance, min bearings, max extent, clamps only when the true value is outside i16, empty glyphs count for advance only); "
               "GlyphLimits::max is the componentwise maximum; the OS/2 UNICODE_RANGES table is sorted, disjoint and in range (the precondition of its binary search). MetricsBuilder::build (long-metric run trimming: hmtx decodes back to the per-glyph metrics, run minimal, "
-              "counts add up) is a BOUNDED check (<= 5 glyphs quick, <= 8 thorough). Bounding boxes, composite limits (HashMap), OS/2 averages, code pages and max context are NOT covered."),
+              "counts add up) is a BOUNDED check (<= 5 glyphs quick, <= 8 thorough). The per-rule kernel of usMaxContext is proved exact. Bounding boxes, composite limits (HashMap), OS/2 averages, code pages and the max-context table walk are NOT covered."),
         note=_KANI_NOTE,
     ),
 })
